@@ -141,3 +141,63 @@ Fixpoint clean_z (p : pz) : Prop :=
   end
 with clean_l (q : pl) : Prop :=
   match q with LChunk _ p | LRuns _ _ p => clean_z p end.
+
+(* ---- induction over pipelines (the nested lists of ZFlatten/ZJoin included) ---- *)
+Section PipeInd.
+  Variables (P : pz -> Prop) (Q : pl -> Prop).
+  Hypothesis HSrc : forall id s, P (ZSrc id s).
+  Hypothesis HPeek : forall p, P p -> P (ZPeek p).
+  Hypothesis HCompact : forall r p, P p -> P (ZCompact r p).
+  Hypothesis HFilter : forall f fl p, P p -> P (ZFilter f fl p).
+  Hypothesis HFirst : forall n p, P p -> P (ZFirst n p).
+  Hypothesis HFlatten : forall ps, Forall P ps -> P (ZFlatten ps).
+  Hypothesis HJoin : forall ps, Forall P ps -> P (ZJoin ps).
+  Hypothesis HMap : forall f fl p, P p -> P (ZMap f fl p).
+  Hypothesis HWhile : forall f fl p, P p -> P (ZWhile f fl p).
+  Hypothesis HFlatSl : forall q, Q q -> P (ZFlattenSlices q).
+  Hypothesis HChunk : forall n p, P p -> Q (LChunk n p).
+  Hypothesis HRuns : forall r k p, P p -> Q (LRuns r k p).
+
+  Fixpoint pz_pl_ind (p : pz) : P p :=
+    match p with
+    | ZSrc id s => HSrc id s
+    | ZPeek p => HPeek p (pz_pl_ind p)
+    | ZCompact r p => HCompact r p (pz_pl_ind p)
+    | ZFilter f fl p => HFilter f fl p (pz_pl_ind p)
+    | ZFirst n p => HFirst n p (pz_pl_ind p)
+    | ZFlatten ps =>
+        HFlatten ps ((fix go (l : list pz) : Forall P l :=
+                        match l with
+                        | [] => Forall_nil P
+                        | x :: t => Forall_cons x (pz_pl_ind x) (go t)
+                        end) ps)
+    | ZJoin ps =>
+        HJoin ps ((fix go (l : list pz) : Forall P l :=
+                     match l with
+                     | [] => Forall_nil P
+                     | x :: t => Forall_cons x (pz_pl_ind x) (go t)
+                     end) ps)
+    | ZMap f fl p => HMap f fl p (pz_pl_ind p)
+    | ZWhile f fl p => HWhile f fl p (pz_pl_ind p)
+    | ZFlattenSlices q => HFlatSl q (pl_pz_ind q)
+    end
+  with pl_pz_ind (q : pl) : Q q :=
+    match q with
+    | LChunk n p => HChunk n p (pz_pl_ind p)
+    | LRuns r k p => HRuns r k p (pz_pl_ind p)
+    end.
+
+  Lemma pipe_ind : (forall p, P p) /\ (forall q, Q q).
+  Proof. split; [exact pz_pl_ind|exact pl_pz_ind]. Qed.
+End PipeInd.
+
+(* what k consecutive Next calls must answer for a pipeline that denotes l *)
+Fixpoint expect (l : list item) (k : nat) : list robs :=
+  match k with
+  | O => []
+  | S k' =>
+      match l with
+      | [] => REnd :: expect [] k'
+      | x :: t => RItem x :: expect t k'
+      end
+  end.
